@@ -12,7 +12,7 @@ from harness import dbutil, lib, semgen as sg
 warnings.filterwarnings("ignore")
 
 PREAMBLE = """From Coq Require Import ZArith String List Bool DecimalString.
-Require Import V.Model.Sem V.Model.Single.
+Require Import V.Base.Calendar V.Model.Sem V.Model.Single.
 Import ListNotations.
 Open Scope string_scope.
 """ + sg.SHOW + """
@@ -26,6 +26,17 @@ Definition both (pk : list nat) (q : squery) (pre : list expr) (rows : list row)
 def gen_case(rnd):
     rows = sg.gen_rows(rnd)
     dims = [sg.gen_dim(rnd) for _ in range(rnd.choice([0, 1, 1, 2, 3]))]
+    tgran = rnd.choice(["day", "week", "week", "month"])
+    if rnd.random() < 0.3:
+        # a time dimension (declared at `tgran`) requested bare and / or at other granularities: each reference is its own result column,
+        # DATE_TRUNC(requested granularity, expression) -- bare = the declared granularity
+        tcol = rnd.choice([1, 2])
+        grans = rnd.sample([None, "day", "week", "month", "quarter", "year"], rnd.choice([1, 1, 2, 2, 3]))
+        if rnd.random() < 0.4:
+            grans = [None, rnd.choice(["month", "quarter", "year", "week"])]          # drill-down: the declared grain next to a coarser one
+        for g in grans:
+            dims.insert(rnd.randint(0, len(dims)), ("tdim", g, tcol))
+        dims = dims[:4]
     mets = []
     for _ in range(rnd.choice([1, 2, 3, 4])):
         agg = rnd.choice(sg.AGGS)
@@ -55,11 +66,23 @@ def gen_case(rnd):
             order = []
     sqlpre = [sg.gen_pred(rnd)] if rnd.random() < 0.25 else []
     return dict(rows=rows, dims=dims, mets=mets, filters=filters, ungrouped=ungrouped, composite=composite, order=order, limit=limit, offset=offset,
-                sqlpre=sqlpre, placeholder=rnd.random() < 0.3, autoparse=rnd.random() < 0.25)
+                sqlpre=sqlpre, placeholder=rnd.random() < 0.3, autoparse=rnd.random() < 0.25, tgran=tgran)
+
+
+def dim_name(i, e):
+    """result column (and, after `t.`, the reference) of dimension number i"""
+    if e[0] == "tdim":
+        return "tdc%d" % e[2] + ("__" + e[1] if e[1] else "")
+    return "d%d" % i
 
 
 def names(case):
-    return ["d%d" % i for i in range(len(case["dims"]))] + ["m%d" % j for j in range(len(case["mets"]))]
+    return [dim_name(i, e) for i, e in enumerate(case["dims"])] + ["m%d" % j for j in range(len(case["mets"]))]
+
+
+def model_dim(case, e):
+    """the expression the reference semantics groups by"""
+    return ("tdim", e[1] or case.get("tgran", "day"), e[2]) if e[0] == "tdim" else e
 
 
 def real(case):
@@ -80,11 +103,13 @@ def real(case):
             mets.append(Metric(name="m%d" % j, agg=a, sql=(sg.sql(e, q) if e else None), filters=filters))
     src = dict(sql="SELECT * FROM t WHERE %s" % sg.sql(case["sqlpre"][0])) if case["sqlpre"] else dict(table="t")
     m = Model(name="t", primary_key=({True: ["id", "id2"], "str": ["id2", "s0"]}[case["composite"]] if case["composite"] else "id"),
-              dimensions=[Dimension(name="d%d" % i, type=("categorical" if e == sg.col(sg.S0) else "numeric"), sql=sg.sql(e, q)) for i, e in enumerate(case["dims"])],
+              dimensions=[Dimension(name="d%d" % i, type=("categorical" if e == sg.col(sg.S0) else "numeric"), sql=sg.sql(e, q)) for i, e in enumerate(case["dims"]) if e[0] != "tdim"] +
+                         [Dimension(name="tdc%d" % k, type="time", granularity=case.get("tgran", "day"), sql="(TIMESTAMP '2024-01-15 00:00:00' + %s%s * INTERVAL 20 DAY)" % (q, sg.COLS[k]))
+                          for k in sorted({e[2] for e in case["dims"] if e[0] == "tdim"})],
               metrics=mets, **src)
     L.add_model(m)
     nm = names(case)
-    kw = dict(metrics=["t.m%d" % j for j in range(len(case["mets"]))], dimensions=["t.d%d" % i for i in range(len(case["dims"]))],
+    kw = dict(metrics=["t.m%d" % j for j in range(len(case["mets"]))], dimensions=["t." + dim_name(i, e) for i, e in enumerate(case["dims"])],
               filters=[sg.sql(f, "t.") for f in case["filters"]], ungrouped=case["ungrouped"])
     if case["order"]:
         kw["order_by"] = ["t.%s%s" % (nm[i], " DESC" if desc else "") for i, desc in case["order"]]
@@ -95,20 +120,21 @@ def real(case):
     sql = L.compile(**kw)
     cur = con.execute(sql)
     cols = [d[0] for d in cur.description]
-    return cols, cur.fetchall(), sql
+    from harness import joingen
+    return cols, joingen.canon_times(cur.fetchall()), sql
 
 
 def coq_term(case):
     mets = "[" + "; ".join("M (%s) %s [%s]" % (sg.COQ_AGG[a], "None" if e is None else "(Some %s)" % sg.coq(e), "; ".join(sg.coq(f) for f in fl)) for a, e, fl in case["mets"]) + "]"
     order = "[" + "; ".join("(%d, %s)" % (i, "true" if d else "false") for i, d in case["order"]) + "]"
     opt = lambda x: "None" if x is None else "(Some %d)" % x
-    q = "(Q [%s] %s [%s] %s %s %s %s)" % ("; ".join(sg.coq(e) for e in case["dims"]), mets, "; ".join(sg.coq(f) for f in case["filters"]), order,
+    q = "(Q [%s] %s [%s] %s %s %s %s)" % ("; ".join(sg.coq(model_dim(case, e)) for e in case["dims"]), mets, "; ".join(sg.coq(f) for f in case["filters"]), order,
                                          opt(case["limit"]), opt(case["offset"]), "true" if case["ungrouped"] else "false")
     pk = {True: "[%d; %d]" % (sg.ID, sg.ID2), "str": "[%d; %d]" % (sg.ID2, sg.S0), False: "[%d]" % sg.ID}[case["composite"]]
     return "both %s %s [%s] %s" % (pk, q, "; ".join(sg.coq(f) for f in case["sqlpre"]), sg.coq_rows(case["rows"]))
 
 
-def rows_match(case, impl_rows, mrows):
+def rows_match(case, impl_rows, mrows, exempt=()):
     """compare implementation rows with model/spec rows (list of (key, cells))"""
     nd = len(case["dims"])
     if len(impl_rows) != len(mrows):
@@ -118,7 +144,7 @@ def rows_match(case, impl_rows, mrows):
     def cmp_row(a, k, cells):
         if [x for x in a[:nd]] != k:
             return False
-        return all(sg.cell_matches(a[nd + j], cells[j], case["mets"][j][0]) for j in range(len(cells)))
+        return all(j in exempt or sg.cell_matches(a[nd + j], cells[j], case["mets"][j][0]) for j in range(len(cells)))
     if total:
         return all(cmp_row(a, k, c) for a, (k, c) in zip(impl_rows, mrows))
     # bag comparison: greedy matching after sorting by key
@@ -181,13 +207,15 @@ def run(c):
             fid_bad.append({"case": case, "impl": rows[:6], "model": m_line[:300]})
         if not ok_spec:
             k = classify_known(c, case)
-            if k and c.is_open(k):
+            # the listed class only excuses the metric columns it is about; everything else must still agree
+            k2_cols = {j for j, (a, e, _) in enumerate(case["mets"]) if a == "count_distinct" and e is None}
+            if k and c.is_open(k) and cols == names(case) and rows_match(case, rows, srows, exempt=k2_cols):
                 c.known(k)
             else:
                 c.violation("rows returned for a single-model query differ from the defined aggregates",
                             {"kind": "case", "case": case, "columns": cols, "impl_rows": [list(map(str, r)) for r in rows[:8]], "spec_rows": s_line[:600], "sql": sql[-900:]})
         if len(c.samples) < 3 and len(rows) > 1:
-            c.samples.append({"dims": [sg.sql(e) for e in case["dims"]], "metrics": [(a, sg.sql(e) if e else None, [sg.sql(f) for f in fl]) for a, e, fl in case["mets"]],
+            c.samples.append({"dims": [sg.sql(e) if e[0] != "tdim" else dim_name(0, e) for e in case["dims"]], "metrics": [(a, sg.sql(e) if e else None, [sg.sql(f) for f in fl]) for a, e, fl in case["mets"]],
                               "filters": [sg.sql(f) for f in case["filters"]], "n_rows": len(case["rows"]), "impl_rows": [list(map(str, r)) for r in rows[:3]]})
     if outs is not None:
         c.obligation("correspondence: Model/Single.run_model == compile()+DuckDB on %d cases" % len(cases), not fid_bad, "correspondence", json.dumps(fid_bad[:1], default=str)[:1800])
